@@ -13,7 +13,7 @@ var syncSites = map[uint32]bool{}
 var taskKinds = []struct {
 	kind string
 	w    int
-}{{"parse", 18}, {"parse-render", 10}, {"stream", 14}, {"render", 26}, {"append", 8}, {"format", 14}, {"walk", 10}, {"inspect", 8}, {"walk-shared", 7}, {"stream-shared-ip", 7}, {"gc", 3}, {"parse-keep-inner", 4}}
+}{{"parse", 18}, {"parse-render", 10}, {"stream", 14}, {"render", 26}, {"append", 8}, {"format", 14}, {"walk", 10}, {"inspect", 8}, {"walk-shared", 7}, {"stream-shared-ip", 7}, {"gc", 3}, {"parse-keep-inner", 4}, {"render-html", 9}}
 
 func genSched(r *Rng, phase string) []*Scenario {
 	nd := r.Range(1, 4)
@@ -87,11 +87,15 @@ func genSched(r *Rng, phase string) []*Scenario {
 			}
 			t.Render = &rs
 			if kind == "render" && r.Chance(0.15) {
-				t.Writer = &WriterScn{Flavour: "writer", FailAt: r.Intn(4), ByteBudget: -1, Full: r.Chance(0.25)}
+				t.Writer = &WriterScn{Flavour: "writer", FailAt: r.Intn(4), ByteBudget: -1, Full: r.Chance(0.25), Err: r.Pick(writerErrKinds)}
+			}
+		case "render-html":
+			if r.Chance(0.1) {
+				t.Writer = &WriterScn{Flavour: "writer", FailAt: r.Intn(4), ByteBudget: -1}
 			}
 		case "format":
 			if r.Chance(0.15) {
-				t.Writer = &WriterScn{Flavour: r.Pick(writerFlavours), FailAt: r.Intn(20), ByteBudget: -1, Full: r.Chance(0.25)}
+				t.Writer = &WriterScn{Flavour: r.Pick(writerFlavours), FailAt: r.Intn(20), ByteBudget: -1, Full: r.Chance(0.25), Err: r.Pick(writerErrKinds)}
 			}
 		case "walk":
 			t.Walk = genWalkScn(r, 4)
